@@ -15,6 +15,7 @@ ENGINES = [
 ]
 
 HARNESSES = {
+    'C15': [dict(name='c15_informed', src=['C15_informed.cpp'], flavour='asan')],
     'C14': [dict(name='c14_dubins', src=['C14_dubins.cpp'], flavour='asan', cflags=['-O2'])],
     'C18': [dict(name='c18_ptc', src=['C18_ptc.cpp'], flavour='asan')],
     'C17': [dict(name='c17_simplify', src=['C17_simplify.cpp'], flavour='asan')],
@@ -47,6 +48,13 @@ DBE_NOTE = ('Trusted: the choice oracle (hook H1 + sampler-allocator seam) reall
             'g++/ASan build of libompl. Bounded: deviation bound D over the first N choice points, lattice samples, the listed worlds/configurations; silent beyond.')
 
 PROPERTY_META = {
+    'C15': dict(
+        deadline_quick=300, deadline_thorough=1500, engine='E3-LPE', design_ref='5/C15',
+        technique='exhaustive lattice products on the real ProlateHyperspheroid (directions, affinity, determinant, measure); full products and deviation-bounded streams of oracle answers for every informed-sampler call',
+        level_text='Hyperspheroid in dimensions 2-5(6) x separations x orientations x cost factors from 1+1e-9 to 100: lattice directions through the real RNG entry point land on the focal-sum surface, '
+                   'transform is affine with |det| = product of semi-axes, measures equal the closed form (=> uniform push-forward). Direct and rejection samplers on R^2,R^3,R^4,SE(2),SE(3) with '
+                   '1-2 starts x 1-2 goals: every answer combination of the first draws and all <= 2 deviations: in bounds, heuristic cost < c (>= lower bound), informed measure; the 1/K rule decided exactly.',
+        level_note=LPE_NOTE + ' The empirical distribution of samples is statistical and not decided by this family.'),
     'C14': dict(
         deadline_quick=240, deadline_thorough=1500, engine='E3-LPE', design_ref='5/C14',
         technique='exhaustive enumeration of a pose-pair lattice against the real Dubins / Reeds-Shepp spaces; independent six-word reference validated by forward simulation; curve traced through interpolate()',
